@@ -186,6 +186,27 @@ func init() {
 			delete(p.subst, full)
 			return nil, true
 		},
+		// vOpaqueLen(b, n): a slice over b's storage whose length is the (symbolic) n; only len() may be used
+		"vOpaqueLen": func(p *Path, fn *ssa.Function, args []Value) (Value, bool) {
+			s := args[0].(Slice)
+			n := p.term(args[1])
+			return Slice{P: s.P, Len: n, Cap: n}, true
+		},
+		// vShards()/vShardIdx(): the runner may split a harness into independent shards (parallel runs)
+		"vShards": func(p *Path, fn *ssa.Function, args []Value) (Value, bool) {
+			n := p.run.shards
+			if n < 1 || p.run.concrete {
+				n = 1
+			}
+			return p.ts().Const(uint64(n), 64), true
+		},
+		"vShardIdx": func(p *Path, fn *ssa.Function, args []Value) (Value, bool) {
+			k := p.run.shard
+			if p.run.shards < 1 || p.run.concrete {
+				k = 0
+			}
+			return p.ts().Const(uint64(k), 64), true
+		},
 		"vThorough": func(p *Path, fn *ssa.Function, args []Value) (Value, bool) {
 			return p.ts().Bool(p.run.thorough), true
 		},
